@@ -418,6 +418,9 @@ def _mem_swap(it, args, dty, func):
 
 @model("std::mem::drop", "core::mem::drop", "std::mem::forget")
 def _drop(it, args, dty, func):
+    v = args[0] if args else None
+    if "forget" not in func and isinstance(v, Agg) and v.ty in MODEL_DROPS:
+        MODEL_DROPS[v.ty](it, v)                      # e.g. an explicit drop(guard) releases the modelled async mutex
     return UNIT
 
 
@@ -2431,7 +2434,24 @@ def _notify_new(it, args, dty, func):
     return Agg("{notify}", [0, False])
 
 
+class _NotifyPtr:
+    """opaque pointer to a modelled Notify (not a Ref: nothing in the interpreter may copy or traverse it)"""
+    __slots__ = ("n",)
+
+    def __init__(self, n):
+        self.n = n
+
+    @property
+    def f(self):
+        return self.n.f
+
+    def __repr__(self):
+        return f"&{self.n!r}"
+
+
 def _notify_obj(v):
+    if isinstance(v, _NotifyPtr):
+        return v.n
     n = _deref(v)
     while isinstance(n, BoxV):
         n = _deref(n.load())
@@ -2455,7 +2475,9 @@ def _notify_one(it, args, dty, func):
 @model("tokio::sync::Notify::notified")
 def _notify_notified(it, args, dty, func):
     n = _notify_obj(args[0])
-    return Agg("{notified}", [n, n.f[0]])
+    # the future refers to the Notify through a pointer: a Notified that is moved (into tokio::time::timeout, into a
+    # select! arm) must stay connected to the one Notify - a by-value field would be copied structurally on the move
+    return Agg("{notified}", [_NotifyPtr(n), n.f[0]])
 
 
 @trait_model(r"^tokio::sync::(futures::)?Notified", "Future", "poll")
